@@ -8,8 +8,8 @@ from checks import callcommon
 from framework import Case, Finding
 
 PROP = "C14"
-GENERATED = ['DtypeTables', 'Core', 'Classes', 'SrcDecorate', 'SrcHints', 'SrcPydantic', 'HintLoop', 'PydHook', 'Wrapper', 'Decorate', 'ShapeLoop', 'ClassDecor', 'Resolve']  # generated files this check's tie depends on
-LEAN_MODULES = ["Properties.C14", "Properties.Core", "Properties.CoreClasses", "Properties.Prov.Decorate", "Properties.Prov.Hints", "Properties.Prov.Pydantic", "Properties.CoreHints", "Properties.CorePyd", "Properties.CoreWrap", "Properties.CoreDecorate", "Properties.CoreShape", "Properties.CoreClassDecor", "Properties.CoreResolve"]
+GENERATED = ['DtypeTables', 'Core', 'Classes', 'SrcDecorate', 'SrcHints', 'SrcPydantic', 'HintLoop', 'PydHook', 'Wrapper', 'Decorate', 'ShapeLoop', 'ClassDecor', 'Resolve', 'SrcSurface']  # generated files this check's tie depends on
+LEAN_MODULES = ["Properties.C14", "Properties.Core", "Properties.CoreClasses", "Properties.Prov.Decorate", "Properties.Prov.Hints", "Properties.Prov.Pydantic", "Properties.CoreHints", "Properties.CorePyd", "Properties.CoreWrap", "Properties.CoreDecorate", "Properties.CoreShape", "Properties.CoreClassDecor", "Properties.CoreResolve", "Properties.Prov.Surface"]
 RULE = (
     "seeded ordered field lists (1-4 fields over the context dimension alphabet: optional fields, multi-axis, expressions, mixed plain "
     "fields; values arrays of the declared library or None for optional fields; 0-1 perturbations; in a third of the lists two fields share one annotation object through a type alias, one of them `| None`) generated once and presented in all four "
